@@ -615,7 +615,9 @@ class Deep:
         out.append({'op': 'mark', 'n': self.mark_n(), 'kind': 'bar'})
         self.passed_barrier(env)
         if rng.random() < 0.5:
-            tv = rng.choice(ends2)
+            # bvalue of a task hashed by the barrier, or of a new one a few links away from such tasks
+            self.shallow(out, env, ends2)
+            tv = rng.choice(ends2 + self.near(env)[-3:])
             var = self.fresh('v')
             b = [{'op': 'mark', 'n': self.mark_n(), 'kind': 'bv', 'ref': {'t': tv}, 'vvar': var}]
             self.shallow(b, env, ends2)
